@@ -77,6 +77,11 @@ def docResults : Option Results → List ResDoc
 
 def metaDel (m : List (Str × RawEntry)) (k : Str) : List (Str × RawEntry) := m.filter (fun x => x.1 != k)
 
+/-- `\w` on the alphabet the harness draws command lines from: ASCII letters, digits, '_' and a few
+    listed non-ASCII letters (the harness checks the same characters against `re` before it uses them) -/
+def driverIsWord (c : Char) : Bool :=
+  c.isAlphanum || c = '_' || c = 'é' || c = 'ß' || c = 'Ж' || c = '中' || c = 'ü'
+
 def handle (st : St) (fs : List String) : St × String :=
   match fs with
   | "rw" :: _n :: rest =>
@@ -182,6 +187,14 @@ def handle (st : St) (fs : List String) : St × String :=
         | none => (st, "absent")
       | none => (st, "absent")
     | _, _, _ => (st, "bad-op")
+  | ["mangle", cmd] =>
+    match decStr cmd with
+    | some c => (st, encStr (mangle driverIsWord c))
+    | none => (st, "bad-op")
+  | ["contained", rel] =>
+    match decStr rel with
+    | some r => (st, if containedLoc r then "1" else "0")
+    | none => (st, "bad-op")
   | ["prune", keys, graph, loaded] =>
     -- keys: "1,2"; graph: "1>2.3,2>" ; loaded: "1,2"
     let ks := (decList keys).filterMap String.toNat?
